@@ -98,8 +98,22 @@ class Ctx:
 
     def normalize(self, term):
         """apply the learnt integer equalities to a z3 term"""
-        for a, b in reversed(self.subst):
-            term = z3.substitute(term, (a, b))
+        def is_var(t):
+            return z3.is_const(t) and t.decl().kind() == z3.Z3_OP_UNINTERPRETED
+        rules = [(a, b) for a, b in self.subst if not is_var(a)]      # defining recurrences  F(k+1) := ...
+        eqs = [(a, b) for a, b in self.subst if is_var(a)]            # learnt integer equalities  j := k
+        for _ in range(8):
+            before = term
+            for a, b in reversed(rules):
+                term = z3.substitute(term, (a, b))
+            for a, b in reversed(eqs):
+                term = z3.substitute(term, (a, b))
+            # the rules themselves are read modulo the equalities
+            if eqs and rules:
+                rules = [(z3.simplify(z3.substitute(a, *[(x, y) for x, y in reversed(eqs)])), b) for a, b in rules]
+            term = z3.simplify(term)
+            if term.eq(before):
+                break
         return term
 
     def feasible(self, extra=None):
@@ -123,9 +137,9 @@ class Ctx:
         if z3.is_false(cond):
             return False
         can_t = self.feasible(cond)
-        if not can_t:
-            return False            # the path condition is satisfiable (invariant), so the other side is
         can_f = self.feasible(z3.Not(cond))
+        if not can_t and not can_f:
+            raise PathEnd()         # an assumption made the path condition unsatisfiable: nothing to verify here
         if can_t and can_f:
             i = len(self.trace)
             if i < len(self.prefix):
